@@ -39,7 +39,7 @@ META = {
     },
 }
 CASES = {'quick': 1500, 'thorough': 60000}
-SECONDS = {'quick': 60, 'thorough': 1500}
+SECONDS = {'quick': 60, 'thorough': 600}
 EXTRAS = [{'position': {'x': 1, 'y': 2.5}}, {'note': 'n'}, {'k': [1, 2], 'flag': True}, {'color': 'red', 'n': None}]
 
 
